@@ -7,6 +7,8 @@ import Ktm.Props.C02
 import Ktm.GridReach
 import Ktm.Live
 import Ktm.HyperbandSweep
+import Ktm.HyperbandDue
+import Ktm.HyperbandLive
 /-! # C11 — no livelock, no early stop: IDLE only while work is in flight; STOPPED is justified
 
 Model: `Core.create` over an algorithm record; the three algorithms that can answer IDLE or STOPPED on
@@ -245,5 +247,41 @@ theorem hyperband_position_moves_forward (cfg : HB.Cfg) (o : HB.O) (h : HB.Sweep
     HB.SweepInv cfg (Core.step HB.alg o op).1.alg ∧
     (HB.pos (Core.step HB.alg o op).1.alg = HB.pos o.alg ∨ HB.pos (Core.step HB.alg o op).1.alg = HB.pos o.alg + 1) :=
   HB.sweep_step cfg o h op
+
+/-- Hyperband never ends early on behalf of an open bracket: if some open bracket has a due promotion (round `j` full, all of its
+trials COMPLETED with a score, round `j + 1` with room), the scan of the brackets finds work — a first round to fill or a promotion —
+so `populate_space` neither opens a new bracket nor answers IDLE / STOPPED for lack of work -/
+theorem hyperband_due_promotion_is_found (o : HB.O) (cfg : HB.Cfg) (bs : List HB.Bracket) (i : Nat)
+    (h : ∃ b ∈ bs, HB.Due o cfg b) : HB.scan o cfg i bs ≠ .none :=
+  HB.scan_finds_due o cfg bs i h
+
+/-- the single-round form: the winner exists whenever the round before is full and ready and the next has room -/
+theorem hyperband_round_promotes (o : HB.O) (cfg : HB.Cfg) (b : HB.Bracket) (r : Nat) (prev cur : List HB.Entry)
+    (rest : List (List HB.Entry)) (hready : HB.AllReady o prev) (hfull : prev.length = cfg.size b.num r)
+    (hroom : (HB.pasts cur).length < cfg.size b.num (r + 1)) (hmono : cfg.size b.num (r + 1) ≤ cfg.size b.num r)
+    (hprev : (prev.map (·.id)).Nodup) (hp : (HB.pasts cur).Nodup) (hsub : ∀ i ∈ HB.pasts cur, i ∈ prev.map (·.id)) :
+    ∃ pid, HB.tryPromote o cfg b r (prev :: cur :: rest) = some (r + 1, pid) :=
+  HB.due_promotion_found o cfg b r prev cur rest hready hfull hroom hmono hprev hp hsub
+
+/-- **Hyperband's schedule is its budget**: every state any request list can reach (any number of workers, any outcomes, retries)
+holds at most `iterations · numBrackets · M` trials, `M` bounding the places `Σ_r size(b, r)` of one bracket (a potential argument:
+every trial handed out uses up a free place of an open bracket or one of the brackets still to be opened) -/
+theorem hyperband_trials_bounded (cfg : HB.Cfg) (M : Nat) (hnb : 0 < cfg.numBrackets) (hit : 0 < cfg.iterations)
+    (hpos : ∀ b, 0 < cfg.size b 0) (hM : ∀ num, num < cfg.numBrackets → HB.cap cfg (HB.newBracket num) ≤ M) (ops : List Core.Op) :
+    (Core.run HB.alg (HB.init cfg) ops).trials.length ≤ cfg.iterations * cfg.numBrackets * M :=
+  HB.trials_bounded cfg M hnb hit hpos hM ops
+
+/-- … hence a Hyperband search with finite iterations finishes: along EVERY interleaving of workers that end what they are given,
+at most `2 · iterations · numBrackets · M · (max_retries + 1)` steps hand out or end a trial — all other steps are IDLE / STOPPED
+answers, and `waiting_is_for_a_running_trial` says an IDLE answer always points at a trial some worker will end -/
+theorem hyperband_search_finishes (cfg : HB.Cfg) (M : Nat) (hnb : 0 < cfg.numBrackets) (hit : 0 < cfg.iterations)
+    (hpos : ∀ b, 0 < cfg.size b 0) (hM : ∀ num, num < cfg.numBrackets → HB.cap cfg (HB.newBracket num) ≤ M) (as : List Live.Act) :
+    Live.productiveCount HB.alg ⟨HB.init cfg, [], false⟩ as ≤
+      2 * (cfg.iterations * cfg.numBrackets * M * ((HB.init cfg).maxRetries + 1)) :=
+  Live.hyperband_productive_bounded cfg M hnb hit hpos hM as
+
+/-- non-vacuity: the schedule of max_epochs 4, factor 2 (sizes [[3], [3, 2], [4, 2, 1]]) meets the hypotheses with `M = 7` -/
+example : 0 < HB.cfg42.numBrackets ∧ 0 < HB.cfg42.iterations ∧ (∀ b, b < 3 → 0 < HB.cfg42.size b 0) ∧
+    HB.cap HB.cfg42 (HB.newBracket 0) ≤ 7 ∧ HB.cap HB.cfg42 (HB.newBracket 1) ≤ 7 ∧ HB.cap HB.cfg42 (HB.newBracket 2) ≤ 7 := by decide
 
 end Props.C11
